@@ -203,6 +203,10 @@ pub fn lex_long_decade(source: &[char]) -> Option<FoundToken> {
     if source[4] != 's' {
         return None;
     }
+    // `1990st` is a number with a suffix, not a decade followed by a stray letter.
+    if source.get(5).is_some_and(|c| c.is_alphanumeric()) {
+        return None;
+    }
 
     Some(FoundToken {
         token: TokenKind::Decade,
